@@ -74,6 +74,13 @@ theorem timeLeft_pend {w : World} (hw : WheelInv w) {s : Nat} {x : Int × Call} 
   simp only []
   omega
 
+theorem trunc32_eq_toCInt (x : Int) : Gen.C10.trunc32 x = toCInt x := rfl
+
+/-- what the efun returns for the call at `x`: its time left as a C int -/
+theorem efun_pend {w : World} (hw : WheelInv w) {s : Nat} {x : Int × Call} (hx : x ∈ cum 0 (w.slots s)) :
+    Gen.C10.efunResult (timeLeft w s x.1) = toCInt ((toPend x.2).due - vnow w) := by
+  rw [tie_efunResult, trunc32_eq_toCInt, timeLeft_pend hw hx]
+
 /-- extras are in the past -/
 theorem extra_due_le {w : World} (hw : WheelInv w) {p : Pend} (h : p.due ≤ (w.cot : Int) - (T0 : Int)) :
     p.due ≤ vnow w := by
